@@ -111,5 +111,11 @@ func Bases() []*Schema {
 				dir("any", allLocs, argD("n", N("Int"), 1), argD("label", N("String"), "L").With(du("inner")), argD("must", NN(N("Int")), 7), argD("musts", NN(L(NN(N("String")))), []interface{}{"m"})),
 				dir("inner", []string{"ARGUMENT_DEFINITION", "INPUT_FIELD_DEFINITION"}),
 			}},
+		// S6 no schema block: the implicit schema extended with a custom-named mutation root and a directive
+		{Blocks: []*SchemaBlock{{Extend: true, Mutation: "Change", Dirs: []DirUse{du("onimplicit", "v", 2)}}},
+			Defs: []*Def{
+				obj("Query", fld("q", N("Int"))), obj("Change", fld("bump", N("Int"), arg("by", N("Int")))),
+				dir("onimplicit", []string{"SCHEMA"}, argD("v", N("Int"), 1)), dir("notonschema", []string{"OBJECT"}),
+			}},
 	}
 }
